@@ -72,6 +72,7 @@ func (u *ut0311) Broadcast(addr *net.UDPAddr, request []byte) ([][]byte, error) 
 
 	var replies = make([][]byte, 0)
 	var err error
+	var mutex sync.Mutex
 
 	// NTS: set-ip doesn't return a reply
 	if request[1] != 0x96 {
@@ -80,10 +81,14 @@ func (u *ut0311) Broadcast(addr *net.UDPAddr, request []byte) ([][]byte, error) 
 				reply := make([]byte, 2048)
 
 				if N, remote, errx := connection.ReadFromUDP(reply); errx != nil {
+					mutex.Lock()
 					err = errx
+					mutex.Unlock()
 					return
 				} else {
+					mutex.Lock()
 					replies = append(replies, reply[:N])
+					mutex.Unlock()
 
 					u.debugf(fmt.Sprintf(" ... received %v bytes from %v (UDP)\n%s", N, remote, codec.Dump(reply[:N], " ...          ")), nil)
 				}
@@ -92,6 +97,9 @@ func (u *ut0311) Broadcast(addr *net.UDPAddr, request []byte) ([][]byte, error) 
 	}
 
 	time.Sleep(u.timeout)
+
+	mutex.Lock()
+	defer mutex.Unlock()
 
 	return replies, err
 }
